@@ -17,8 +17,8 @@ CHECKS = {
     "C13": ("exploration",
             "exhaustive product enumeration; differential execution of the JS in spending_report.js (node vm) against classification.py",
             "All 13 amounts x ~2000 tag lists (every subset, order and letter-case form of the special tags, mixed with ordinary tags) and all "
-            "cash-flow triples are evaluated by both implementations and must agree exactly; Python is also compared with the statement's rule.",
-            "executes the JS classification functions under node, not the Vue app in a browser; string tags only",
+            "cash-flow triples are evaluated by both implementations and must agree exactly; Python is also compared with the statement's rule. Every set of <=3/4 of 12 transactions is rendered as a real HTML report whose scripts run under node against a stand-in for Vue; the totals card the application computes must equal the command-line classification.",
+            "executes the JS under node, not in a browser (the application's setup() against a minimal stand-in for Vue; unfiltered totals card only); string tags only",
             "DESIGN.md 4/C13"),
 }
 
